@@ -1505,6 +1505,11 @@ fn main() {
                 }).collect();
                 let vm = PikeVM::new(&p);
                 let vmf = PikeVM::new(&anchored_whole(&p));
+                // the same count by the reference engine (what Engine/Prio.v find_iter_count models)
+                let vm_counts: Vec<Value> = v["hs"].as_array().unwrap().iter().map(|h| match &vm {
+                    Ok(re) => { let mut c = re.create_cache(); json!(re.find_iter(&mut c, &str_of(h)).count()) }
+                    Err(_) => Value::Null,
+                }).collect();
                 for h in v["hs"].as_array().unwrap() {
                     let hs = str_of(h);
                     match (&vm, &vmf) {
@@ -1520,7 +1525,7 @@ fn main() {
                         _ => { full.push(Value::Null); find.push(Value::Null); }
                     }
                 }
-                writeln!(w, "{}", json!({"full": full, "find": find, "meta_count": counts})).unwrap();
+                writeln!(w, "{}", json!({"full": full, "find": find, "meta_count": counts, "vm_count": vm_counts})).unwrap();
             }
         }
         "fromfile" => {
